@@ -279,6 +279,97 @@ def run_append_output(report, max_order):
         seconds=round(time.time() - t0, 1))
 
 
+def run_bucket(report, max_layers):
+    """BucketOutput (dense output levels filled out of order / under a contraction), per number of bucket levels n and
+    per position of the bucket inside the output (kind B, all dimensions and indexes):
+
+      ravel_indexes / write_assignment   the emitted index expression equals the row-major (Horner) position
+                                         (...(i_1 * d_2 + i_2) * d_3 + ...) + i_n  of (i_1..i_n) in a block of shape d_1 x .. x d_n,
+                                         hence 0 <= index < d_1 * .. * d_n whenever 0 <= i_k < d_k: the accumulation stays in the bucket
+      write_declarations                 the zero-initialisation loop writes inside [0, d_1 * .. * d_n) of the bucket and terminates
+    """
+    from tensora.format import Mode
+    from tensora.ir import ast as ir
+    from tensora.iteration_graph.identifiable_expression import ast as ie
+    from tensora.iteration_graph.outputs import BucketOutput
+    from tensora.kernel_type import KernelType
+
+    from standins import whole_kernel as WK
+
+    t0 = time.time()
+    n_shapes = 0
+    for order in range(0, max_layers + 1):
+        for first in range(0, order + 1):
+            n_shapes += 1
+            idx = tuple(f"i{k}" for k in range(order))
+            tensor = ie.Tensor("0_T", "T", idx, tuple(Mode.dense for _ in range(order)))
+            layers = list(range(first, order))
+            bucket = BucketOutput(tensor, layers)
+            shape = f"order{order}:levels{first}..{order - 1}" if layers else f"order{order}:empty"
+            dimv = {k: Int(f"i{k}_dim") for k in layers}
+            idxv = {k: Int(f"i{k}") for k in layers}
+            rng = [And(dimv[k] >= 0, idxv[k] >= 0, idxv[k] < dimv[k]) for k in layers]
+            prod = IntVal(1)
+            for k in layers:
+                prod = prod * dimv[k]
+            horner = IntVal(0)
+            for k in layers:
+                horner = horner * dimv[k] + idxv[k]
+            # ---------------- write_assignment (ravel_indexes) ----------------
+            frag = bucket.write_assignment(ir.Variable("rhs"), KernelType.evaluate).finalize()
+            ctx = WK.Ctx(_FakeMember, None, KernelType.evaluate)
+            ctx.dims = {}
+            st = WK.State()
+            for k in layers:
+                st.ints[f"i{k}_dim"] = dimv[k]
+                st.ints[f"i{k}"] = idxv[k]
+            off, n = Int("bucket_offset"), Int("len_vals")
+            st.ptrs[bucket.name().name] = ("T.vals", off)
+            st.alen["T.vals"] = n
+            st.path += rng + [off >= 0, off + prod <= n]
+            index_expr = None
+            for node in WK_walk(frag):
+                if isinstance(node, ir.Assignment) and isinstance(node.target, ir.ArrayIndex):
+                    index_expr = node.target.index
+            if index_expr is None:
+                report.undecide(f"fragment:bucket write_assignment[{shape}]: no indexed store found")
+            else:
+                _, val = WK.ev(index_expr, st, ctx)
+                _oblige(report, f"fragment:bucket.ravel_indexes[{shape}]:row-major", st.path, val == horner, "BucketOutput.ravel_indexes")
+            ctx.checks.clear()
+            WK.run(frag, st, ctx)
+            _record_checks(report, ctx, f"bucket.write_assignment[{shape}]")
+            # ---------------- write_declarations ----------------
+            frag = bucket.write_declarations(ir.Add(ir.Variable("T_vals"), ir.Variable("p_prev"))).finalize()
+            ctx = WK.Ctx(_FakeMember, None, KernelType.evaluate)
+            ctx.dims = {}
+            ctx.fn = type("F", (), {"body": frag})()
+            st = WK.State()
+            for k in layers:
+                st.ints[f"i{k}_dim"] = dimv[k]
+                st.path.append(dimv[k] >= 0)
+            pprev = Int("p_prev")
+            st.ints["p_prev"] = pprev
+            st.ptrs["T_vals"] = ("T.vals", IntVal(0))
+            st.alen["T.vals"] = n
+            st.path += [pprev >= 0, pprev + prod <= n]
+            try:
+                WK.run(frag, st, ctx)
+                _record_checks(report, ctx, f"bucket.write_declarations[{shape}]")
+            except NotImplementedError as e:
+                report.undecide(f"fragment:bucket.write_declarations[{shape}]: {e}")
+    report.functions += ["tensora.iteration_graph.outputs._bucket.BucketOutput.ravel_indexes", "tensora.iteration_graph.outputs._bucket.BucketOutput.write_assignment",
+                         "tensora.iteration_graph.outputs._bucket.BucketOutput.write_declarations"]
+    report.extra.setdefault("proved_per_shape", {})["BucketOutput fragments"] = dict(
+        shapes=n_shapes, bound=f"bucket over the trailing dense levels of an output of order 0..{max_layers}; all dimensions, indexes and offsets", seconds=round(time.time() - t0, 1))
+
+
+def WK_walk(node):
+    from standins.static_ir import walk
+
+    return walk(node)
+
+
 def _oblige(report, oid, hyps, goal, fn):
     t0 = time.time()
     r = _valid(hyps, goal)
